@@ -464,7 +464,7 @@ def consumer_race_case(draw, d):
         gens = [None, None, None, 0, 1]
     mode = draw(st.sampled_from(['same', 'same', 'mixed']))
     n = draw(st.sampled_from([2, 2, 3]))
-    v = (1, draw(st.sampled_from([39, 38, 37, 34, 30, 28])))
+    v = (1, draw(st.sampled_from([39, 39, 38, 38, 37, 34, 30, 28])))
     reqs = {}
     others = [x for x in free_cons if x != c]
     for i, name in enumerate('ABC'[:n]):
@@ -479,7 +479,8 @@ def consumer_race_case(draw, d):
         if kind == 'put':
             reqs[name] = put_alloc(d, c, {(rp, rc): a}, v, gen_override=g,
                                    project=draw(st.sampled_from(
-                                       gen.PROJECTS)))
+                                       gen.PROJECTS)),
+                                   ctype=draw(st.sampled_from(gen.CTYPES)))
         elif kind == 'clear':
             reqs[name] = put_alloc(d, c, {}, v, gen_override=g)
         elif kind == 'post':
